@@ -1,6 +1,7 @@
 package rules
 
 import (
+	"go/types"
 	"golang.org/x/tools/go/ssa"
 
 	"wsverif/core"
@@ -173,6 +174,12 @@ func (w *writerA) implicitClose() {
 			return isEqNil(t, func(y *core.Term) bool { _, is := fieldLoad(y, w.writer); return is })
 		})
 		if !open {
+			none := hasLit(p, len(p.Lits), true, func(t *core.Term) bool {
+				return isEqNil(t, func(y *core.Term) bool { _, is := fieldLoad(y, w.writer); return is })
+			})
+			if !none {
+				ok, why = false, "beginMessage returns at "+c.P.Pos(p.Ret.Pos())+" without having looked at the previous writer: a writer the application left open keeps its pooled buffer for good when the connection has failed through another path"
+			}
 			return
 		}
 		closedAt := -1
@@ -215,4 +222,105 @@ func (w *writerA) implicitClose() {
 		})
 		r.Check("C20.implicit-close", shortFn(g), "writer-installed-after-begin", g.Pos(), ok2, why2)
 	}
+}
+
+// localWriters: a function that opens a message for its own use (WriteMessage,
+// WriteJSON, ...) ends it on every path: after a successful NextWriter the
+// returned writer is closed, unless the path returns on the error of a Write
+// on that very writer (the message writer ends the message itself when a frame
+// write fails: C20.all-exits); after a successful beginMessage on a local
+// messageWriter the path goes through flushFrame on it.
+func (w *writerA) localWriters(rule string) {
+	c, r := w.c, w.c.R
+	n := 0
+	for _, g := range c.P.FuncList {
+		if g == w.nextWriter || g.Blocks == nil {
+			continue
+		}
+		if !callsDirectly(g, w.nextWriter) && !(callsDirectly(g, w.begin) && g != w.nextWriter) {
+			continue
+		}
+		if c.isNewHelper(g, 1) {
+			hs := c.hostsOf(g)
+			if !(len(hs) == 1 && hs[0] == g) {
+				continue // judged inside its callers
+			}
+		}
+		// the writer is handed to the caller: not this function's to close
+		handsOut := false
+		for i := 0; i < g.Signature.Results().Len(); i++ {
+			if types.Implements(g.Signature.Results().At(i).Type(), ioWriterIface(c)) {
+				handsOut = true
+			}
+		}
+		if handsOut {
+			continue
+		}
+		ok, why := true, "every message this function opens is ended on every path"
+		nOpen := 0
+		c.explore(rule, g, core.Opts{Unroll: 0, Pure: c.pureSet("isControl", "isData")}, func(p *core.Path) {
+			if p.End != core.EndReturn {
+				return
+			}
+			for i := range p.Events {
+				ev := &p.Events[i]
+				switch {
+				case callsStatic(ev, w.nextWriter) && own(ev):
+					e := errOf(p.X, ev.Result)
+					if !hasLit(p, len(p.Lits), true, func(t *core.Term) bool { return isEqNil(t, is(e)) }) {
+						continue
+					}
+					nOpen++
+					wr := p.X.ExtractOf(ev.Result, 0, nil)
+					closed, writeFailed := false, false
+					for k := i + 1; k < len(p.Events); k++ {
+						e2 := &p.Events[k]
+						if e2.Kind != core.EvCall || e2.Static != nil || e2.Method == nil || strip(e2.Recv) != wr {
+							continue
+						}
+						switch e2.Method.Name() {
+						case "Close":
+							closed = true
+						case "Write", "WriteString", "ReadFrom":
+							we := errOf(p.X, e2.Result)
+							if we != nil && hasLit(p, len(p.Lits), false, func(t *core.Term) bool { return isEqNil(t, is(we)) }) {
+								writeFailed = true
+							}
+						}
+					}
+					if !closed && !writeFailed {
+						ok, why = false, "the path returning at "+c.P.Pos(p.Ret.Pos())+" leaves the writer obtained at "+c.P.Pos(ev.Instr.Pos())+" open (no Close, and no failed Write on it): the message is never ended and a pooled buffer stays with the connection"
+					}
+				case callsStatic(ev, w.begin) && own(ev) && len(ev.Args) >= 2:
+					e := errOf(p.X, ev.Result)
+					if !hasLit(p, len(p.Lits), true, func(t *core.Term) bool { return isEqNil(t, is(e)) }) {
+						continue
+					}
+					nOpen++
+					mw := ev.Args[1]
+					flushed := false
+					for k := i + 1; k < len(p.Events); k++ {
+						e2 := &p.Events[k]
+						if (callsStatic(e2, w.flush) || callsStatic(e2, w.end)) && len(e2.Args) > 0 && e2.Args[0] == mw {
+							flushed = true
+						}
+					}
+					if !flushed {
+						ok, why = false, "the path returning at "+c.P.Pos(p.Ret.Pos())+" leaves the message begun at "+c.P.Pos(ev.Instr.Pos())+" without flushFrame/endMessage: the pooled buffer taken by beginMessage is never put back"
+					}
+				}
+			}
+		})
+		if nOpen > 0 {
+			n++
+			r.Check(rule, shortFn(g), "opened-message-ended-on-every-path", g.Pos(), ok, why)
+		}
+	}
+	if n < 2 {
+		r.Fail(rule, "", "floor-local-writers", w.writeMessage.Pos(), "fewer than 2 functions that open a message for their own use were found (rule blind)")
+	}
+}
+
+func ioWriterIface(c *Ctx) *types.Interface {
+	return c.P.ExtFunc("io", "Copy").Pkg().Scope().Lookup("Writer").Type().Underlying().(*types.Interface)
 }
